@@ -105,8 +105,8 @@ func (p *c19Prop) Run(ci interface{}) interface{} {
 	}
 	defer b.Drop()
 	if c.Kind == "conn" {
+		t0 := time.Now() // before the broker can have armed anything
 		cl := b.Dial()
-		t0 := time.Now()
 		_ = cl.conn.SetReadDeadline(t0.Add(time.Duration(c.Horizon) * time.Millisecond))
 		buf := make([]byte, 16)
 		_, err := cl.conn.Read(buf)
@@ -144,14 +144,18 @@ func (p *c19Prop) Run(ci interface{}) interface{} {
 	will := mqttp.NewPublish(mqttp.ProtocolV311)
 	_ = will.Set("will/x", []byte{1}, 0, false, false)
 	cl := b.Dial()
+	// every time stamp is taken BEFORE the packet it belongs to is written: the broker re-arms its timer when it
+	// reads the packet, which is later, so "closed at - last time stamp" never under-estimates the silence the
+	// broker has seen (the check allows no slack below a deadline); the slack above covers the round trips
+	t0 := time.Now()
 	if _, err := cl.Connect(ConnectOpts{ID: "kx", Ver: mqttp.ProtocolV311, Clean: true, KeepAlive: uint16(c.K), Will: will}); err != nil {
 		obs.Err = "connect: " + err.Error()
 		return obs
 	}
-	t0 := time.Now()
 	a := cl.Auto(false)
 	for j, at := range c.Sends {
 		time.Sleep(time.Until(t0.Add(time.Duration(at) * time.Millisecond)))
+		sentAt := int(time.Since(t0) / time.Millisecond)
 		switch c.What[j] {
 		case 0:
 			_ = a.Send(mqttp.NewPingReq(mqttp.ProtocolV311))
@@ -160,7 +164,7 @@ func (p *c19Prop) Run(ci interface{}) interface{} {
 		default:
 			_ = a.Send(mkSubscribe(mqttp.ProtocolV311, uint16(j+1), []string{"k/y"}, []byte{0}))
 		}
-		obs.Sent = append(obs.Sent, int(time.Since(t0)/time.Millisecond))
+		obs.Sent = append(obs.Sent, sentAt)
 		if a.Closed() {
 			break
 		}
